@@ -118,3 +118,35 @@ B("c11-user-specs-lose-precedence", "C11", sub("functions_loader.py", "    aggre
 B("c11-bool-sum-stays-bool", "C11", sub("functions_loader.py", '    elif (source_col_type == bool) and (aggr in ["sum"]):', '    elif (source_col_type == bool) and (aggr in ["mean"]):'), "RT")
 B("c11-unimplemented-pointer-kind", "C11", sub("transfers/kindergeld.py", '"aggr": "sum"', '"aggr": "max"', count=2), "SPEC")
 T("c11-branches-reordered", "C11", [sub("functions_loader.py", '        if agg_specs["aggr"] == "sum":\n\n            @rename_arguments(\n                mapper=mapper,\n                annotations=annotations,\n            )\n            def aggregate_by_group_func(source_col, group_id):\n                return grouped_sum(source_col, group_id)\n\n        elif agg_specs["aggr"] == "mean":', '        if agg_specs["aggr"] == "mean":'), sub("functions_loader.py", '                return grouped_all(source_col, group_id)\n\n        else:', '                return grouped_all(source_col, group_id)\n\n        elif agg_specs["aggr"] == "sum":\n\n            @rename_arguments(\n                mapper=mapper,\n                annotations=annotations,\n            )\n            def aggregate_by_group_func(source_col, group_id):\n                return grouped_sum(source_col, group_id)\n\n        else:')])
+
+# ------------------------------------------------------------------ C15 / C16 / C17 / C19 / C20
+B("c15-individual-argument-in-bg-rule", "C15", sub("transfers/arbeitsl_geld_2/arbeitsl_geld_2.py", "def arbeitsl_geld_2_m_bg(\n    arbeitsl_geld_2_vor_vorrang_m_bg: float,", "def arbeitsl_geld_2_m_bg(\n    alter: int,\n    arbeitsl_geld_2_vor_vorrang_m_bg: float,"), "L")
+B("c15-finer-group-in-wthh-rule", "C15", sub("transfers/wohngeld.py", "vermögen_bedürft_wthh", "vermögen_bedürft_bg", count=9), "L")
+B("c15-tolerant-input-check", "C15", sub("interface.py", "                if not (max_value == col).all():", "                if not numpy.isclose(max_value, col).all():"), "L-in")
+T("c15-enclosing-group-argument", "C15", sub("transfers/arbeitsl_geld_2/arbeitsl_geld_2.py", "def arbeitsl_geld_2_m_bg(\n    arbeitsl_geld_2_vor_vorrang_m_bg: float,", "def arbeitsl_geld_2_m_bg(\n    anz_personen_hh: int,\n    arbeitsl_geld_2_vor_vorrang_m_bg: float,"))
+B("c16-unguarded-data-denominator", "C16", sub("transfers/kindergeld.py", "def kindergeld_ohne_staffelung_m(\n", "def kindergeld_pro_kind_fg(kindergeld_m_fg: float, anz_kinder_fg: int) -> float:\n    return kindergeld_m_fg / anz_kinder_fg\n\n\ndef kindergeld_ohne_staffelung_m(\n    kindergeld_pro_kind_fg: float,\n", count=1), "Z")
+B("c16-gate-pays-more-than-entitlement", "C16", sub("transfers/arbeitsl_geld_2/arbeitsl_geld_2.py", "    else:\n        out = arbeitsl_geld_2_vor_vorrang_m_bg\n", "    else:\n        out = 1.1 * arbeitsl_geld_2_vor_vorrang_m_bg\n"), "G")
+B("c16-monthly-wage-capped-at-yearly-ceiling", "C16", [sub("transfers/arbeitsl_geld.py", "    _ges_rentenv_beitr_bemess_grenze_m: float,\n", "    _ges_rentenv_beitr_bemess_grenze_y: float,\n", count=1), sub("transfers/arbeitsl_geld.py", "min(bruttolohn_vorj_m, _ges_rentenv_beitr_bemess_grenze_m)", "min(bruttolohn_vorj_m, _ges_rentenv_beitr_bemess_grenze_y)")], "U")
+T("c16-guarded-denominator", "C16", sub("transfers/kindergeld.py", "def kindergeld_ohne_staffelung_m(\n", "def kindergeld_pro_kind_fg(kindergeld_m_fg: float, anz_kinder_fg: int) -> float:\n    return kindergeld_m_fg / anz_kinder_fg if anz_kinder_fg > 0 else 0.0\n\n\ndef kindergeld_ohne_staffelung_m(\n    kindergeld_pro_kind_fg: float,\n", count=1))
+T("c16-explicit-unit-conversion", "C16", sub("transfers/arbeitsl_geld.py", "min(bruttolohn_vorj_m, _ges_rentenv_beitr_bemess_grenze_m)", "min(bruttolohn_vorj_m, 12 * _ges_rentenv_beitr_bemess_grenze_m / 12)"))
+B("c17-alg2-guard-drops-a-flag", "C17", sub("transfers/arbeitsl_geld_2/arbeitsl_geld_2.py", "        wohngeld_vorrang_bg\n        or kinderzuschl_vorrang_bg\n        or wohngeld_kinderzuschl_vorrang_bg\n", "        wohngeld_vorrang_bg\n        or wohngeld_kinderzuschl_vorrang_bg\n"), "X1")
+B("c17-wthh-aggregate-all", "C17", sub("transfers/benefit_checks/benefit_checks.py", '        "source_col": "wohngeld_vorrang_bg",\n        "aggr": "any",', '        "source_col": "wohngeld_vorrang_bg",\n        "aggr": "all",'), "X2")
+B("c17-wohngeld-ignores-pensioner-flag", "C17", sub("transfers/wohngeld.py", "    if not erwachsene_alle_rentner_hh and (\n        wohngeld_vorrang_wthh or wohngeld_kinderzuschl_vorrang_wthh\n    ):", "    if (\n        not erwachsene_alle_rentner_hh and wohngeld_vorrang_wthh\n    ) or wohngeld_kinderzuschl_vorrang_wthh:"), "X1")
+B("c17-split-needs-both-flags", "C17", sub("groupings.py", "        if wohngeld_vorrang_bg[index] or wohngeld_kinderzuschl_vorrang_bg[index]:", "        if wohngeld_vorrang_bg[index] and wohngeld_kinderzuschl_vorrang_bg[index]:"), "X2")
+T("c17-disjuncts-reordered", "C17", sub("transfers/arbeitsl_geld_2/arbeitsl_geld_2.py", "        wohngeld_vorrang_bg\n        or kinderzuschl_vorrang_bg\n        or wohngeld_kinderzuschl_vorrang_bg\n", "        kinderzuschl_vorrang_bg\n        or wohngeld_kinderzuschl_vorrang_bg\n        or wohngeld_vorrang_bg\n"))
+T("c17-split-vectorised", "C17", sub("groupings.py", "    result = []\n    for index, current_hh_id in enumerate(hh_id):\n        if wohngeld_vorrang_bg[index] or wohngeld_kinderzuschl_vorrang_bg[index]:\n            result.append(current_hh_id * 100 + 1)\n        else:\n            result.append(current_hh_id * 100)\n\n    return numpy.asarray(result)", "    vorrang = wohngeld_vorrang_bg | wohngeld_kinderzuschl_vorrang_bg\n    return numpy.where(vorrang, hh_id * 100 + 1, hh_id * 100)"))
+B("c19-wage-not-capped", "C19", sub("social_insurance_contributions/ges_rentenv.py", "    out = min(bruttolohn_m, _ges_rentenv_beitr_bemess_grenze_m)\n    return out", "    out = bruttolohn_m if _ges_rentenv_beitr_bemess_grenze_m > 0 else 0.0\n    return out"), "M1")
+B("c19-minijob-pays-on-wage", "C19", sub("social_insurance_contributions/ges_rentenv.py", "    if geringfügig_beschäftigt:\n        out = 0.0\n    elif in_gleitzone:\n        out = _ges_rentenv_beitr_midijob_arbeitnehmer_m", "    if geringfügig_beschäftigt:\n        out = 0.036 * _ges_rentenv_beitr_bruttolohn_m\n    elif in_gleitzone:\n        out = _ges_rentenv_beitr_midijob_arbeitnehmer_m"), "M0")
+T("c19-cap-respelled", "C19", sub("social_insurance_contributions/ges_rentenv.py", "    out = min(bruttolohn_m, _ges_rentenv_beitr_bemess_grenze_m)\n    return out", "    return min(_ges_rentenv_beitr_bemess_grenze_m, bruttolohn_m)"))
+B("c20-foreign-key-check-not-called", "C20", sub("interface.py", "    _fail_if_pid_is_non_unique(data)\n    _fail_if_foreign_keys_are_invalid(data)\n", "    _fail_if_pid_is_non_unique(data)\n"), "F1")
+B("c20-pointer-not-in-foreign-keys", "C20", sub("config.py", '    "p_id_elternteil_2",\n]', "]"), "S-fk")
+B("c20-float-to-int-without-test", "C20", sub("gettsim_typing.py", "                if np.array_equal(out, out.astype(np.int64)):\n                    out = out.astype(np.int64)\n                else:\n                    raise ValueError(\n                        basic_error_msg + \" This conversion is only supported if all\"\n                        \" decimal places of input data are equal to 0.\"\n                    )", "                out = out.astype(np.int64)"), "F3")
+B("c20-conversion-warning-dropped", "C20", sub("interface.py", "    elif len(collected_conversions) > 1:\n        warnings.warn(", "    elif len(collected_conversions) > 2:\n        warnings.warn("), "F4")
+B("c20-validator-only-for-dataframes", "C20", sub("interface.py", "    # Check that group variables are constant within groups\n    _fail_if_group_variables_not_constant_within_groups(data)\n", "    if len(data) > 100:\n        _fail_if_group_variables_not_constant_within_groups(data)\n"), "F1")
+T("c20-validators-moved-into-helper", "C20", [sub("interface.py", "    # Check that group variables are constant within groups\n    _fail_if_group_variables_not_constant_within_groups(data)\n    _fail_if_pid_is_non_unique(data)\n    _fail_if_foreign_keys_are_invalid(data)\n", "    _run_checks(data)\n"), append("interface.py", "def _run_checks(data):\n    _fail_if_group_variables_not_constant_within_groups(data)\n    _fail_if_pid_is_non_unique(data)\n    _fail_if_foreign_keys_are_invalid(data)\n")])
+T("c20-foreign-key-check-two-loops", "C20", sub("interface.py", "        # Referenced `p_id` must not be the same as the `p_id` of the same row\n        if (data[foreign_key] == data[\"p_id\"]).any():", "    for foreign_key in [k for k in FOREIGN_KEYS if k in data]:\n        # Referenced `p_id` must not be the same as the `p_id` of the same row\n        if (data[foreign_key] == data[\"p_id\"]).any():"))
+# C07 additions
+B("c07-prior-year-by-365-days", "C07", sub("policy_environment.py", "            dt = dt.replace(year=dt.year - years)\n\n        # Take care of leap years\n        except ValueError:\n            dt = dt.replace(year=dt.year - years, day=dt.day - 1)\n        return dt", "            dt = dt - datetime.timedelta(days=365 * years)\n        except ValueError:\n            pass\n        return dt"), "O5")
+B("c07-ten-day-hole", "C07", sub("transfers/rente.py", 'end_date="2007-04-29"', 'end_date="2007-04-19"', count=1), "R4")
+B("c13-conversion-precedence-reversed", "C13", [sub("time_conversion.py", "    for name in data_cols:\n        result.update(", "    from_data = {}\n    for name in data_cols:\n        from_data.update("), sub("time_conversion.py", "    return result\n\n\ndef _create_time_conversion_functions", "    return {**from_data, **result}\n\n\ndef _create_time_conversion_functions")], "Q2")
+T("c13-conversion-precedence-respelled", "C13", [sub("time_conversion.py", "    for name in data_cols:\n        result.update(", "    from_data = {}\n    for name in data_cols:\n        from_data.update("), sub("time_conversion.py", "    return result\n\n\ndef _create_time_conversion_functions", "    return {**result, **from_data}\n\n\ndef _create_time_conversion_functions")])
